@@ -17,6 +17,9 @@ fn main() {
             "condvar/oneshot wake-up paths (sync.rs, tokio.rs) are only exercised by E7, i.e. sampled",
         ],
         |s| {
+            // the channel promises never to block its callers: a case that does not return is a violation
+            s.hang_is_violation(120);
+            s.require("self-reported-metrics", 2000);
         s.require("overflow-via-send", 5000);
         s.require("overflow-via-try_send", 5000);
         s.require("overflow-via-async-send", 5000);
